@@ -19,6 +19,11 @@ fn fma(x: f64, y: f64, z: f64) -> f64 {
     libm::fma(x, y, z)
 }
 
+#[cfg(feature = "verif_hooks")]
+pub(crate) fn verif_fma(x: f64, y: f64, z: f64) -> f64 {
+    fma(x, y, z)
+}
+
 /// Renormalization ensures that the components of the returned tuple are arranged in such a
 /// way that the absolute value of the last component is no more than half the ULP of the
 /// first.
